@@ -138,6 +138,8 @@ func familyExt(family, id string, g *Gen, blocks, maxTx int) *Scenario {
 		return g.OnsStory(id, blocks, true)
 	case "onsmix":
 		return g.Mixed(id, blocks, maxTx, OnsKinds)
+	case "olvm":
+		return g.OlvmStory(id, blocks)
 	case "deleg":
 		g.Hostile = 0.2
 		return g.Mixed(id, blocks, maxTx+2, DelegKinds)
@@ -198,6 +200,8 @@ func familyKindsExt(family string) []string {
 		return GovKinds
 	case "ons", "onsmix":
 		return OnsKinds
+	case "olvm":
+		return []string{"OLVM", "SEND"}
 	case "onsgov":
 		return append(append([]string{}, OnsKinds...), "PROP_CREATE", "PROP_FUND", "PROP_VOTE")
 	}
